@@ -41,6 +41,7 @@ ASSUME = SIM_ASSUME + [
 ]
 
 DISTINCT = [3, 2, 1, 0, 64, 65, 63, 128, 129, 300]
+LEFTOVER_TYPES = (31771, 31772, 31773)  # forwarded at the very end of a case and never reported by that case's manager
 SPECIAL_TYPES = [0, 9999, 10000, -1, 2 ** 31 - 2, -(2 ** 31), 2, 8, 33, 80, 30, 65536, 100]
 CONTROL = P.CONTROL_TYPES
 
@@ -85,14 +86,32 @@ class StatsWorld:
             self.mon2_reports = []
             self.mon_reports = []
             self.pump()
-            # warm-up report, discarded
+            # warm-up report: its content is not checked (start-up log lines, handshakes), except that a freshly created
+            # manager cannot report the types an EARLIER manager object of this process forwarded and never reported
             self.report(2.0, check=False)
+            leaked = [t for fr in self.traffic_frames for t in self._traffic_types(fr) if t in LEFTOVER_TYPES]
+            if leaked:
+                self.viol("traffic/inherited-from-another-manager", f"the first MESSAGE_TRAFFIC of a new manager lists types {sorted(set(leaked))}, "
+                          f"which only an earlier manager object of this process forwarded (statistics state is shared between manager objects)")
         except BaseException:
             self.sim.close()
             raise
 
     def viol(self, key, what):
         raise Violation(key, what, self.trace)
+
+    def _traffic_types(self, fr):
+        if len(fr.payload) != 408:
+            return []
+        types = struct.unpack_from("<64i", fr.payload, 24)
+        counts = struct.unpack_from("<64H", fr.payload, 24 + 256)
+        return [t for t, c in zip(types, counts) if t != -1 and c > 0]
+
+    def leave_unreported_traffic(self):
+        """Called at the end of a case: a few messages of reserved types are forwarded and never reported."""
+        for t in LEFTOVER_TYPES:
+            self._send(self.pubs[0], t, b"", src=self.pubs[0].mod_id)
+        self.pump()
 
     def _send(self, conn, t, payload=b"", src=0, dm=0, dh=0):
         conn.send(P.build(t, payload, src_mod=src, dest_mod=dm, dest_host=dh, timecode=self.tc))
@@ -324,6 +343,7 @@ def run_case(cfg, intervals, res: Result = None):
             w.interval(iv, res)
         if res is not None:
             res.count("reports-checked", w.reports_checked)
+        w.leave_unreported_traffic()
     finally:
         w.close()
 
